@@ -222,6 +222,199 @@ fn scenario(seed: u64, drv_path: String) -> Vec<Fail> {
     fails
 }
 
+/// `TmpFileSystem` with a gate on the creation of table files: lets `pass` creations through and
+/// holds the next one until released (30 s at most).
+struct GateFs {
+    inner: Arc<TmpFileSystem>,
+    /// table-file creations to let through before blocking; `usize::MAX` = disarmed
+    until_block: std::sync::atomic::AtomicUsize,
+    reached: std::sync::atomic::AtomicBool,
+    open: std::sync::atomic::AtomicBool,
+}
+
+impl raindb::fs::FileSystem for GateFs {
+    fn get_name(&self) -> String {
+        "GateFs".to_string()
+    }
+    fn create_dir(&self, path: &std::path::Path) -> std::io::Result<()> {
+        self.inner.create_dir(path)
+    }
+    fn create_dir_all(&self, path: &std::path::Path) -> std::io::Result<()> {
+        self.inner.create_dir_all(path)
+    }
+    fn list_dir(&self, path: &std::path::Path) -> std::io::Result<Vec<std::path::PathBuf>> {
+        self.inner.list_dir(path)
+    }
+    fn open_file(&self, path: &std::path::Path) -> std::io::Result<Box<dyn raindb::fs::ReadonlyRandomAccessFile>> {
+        self.inner.open_file(path)
+    }
+    fn rename(&self, from: &std::path::Path, to: &std::path::Path) -> std::io::Result<()> {
+        self.inner.rename(from, to)
+    }
+    fn create_file(&self, path: &std::path::Path, append: bool) -> std::io::Result<Box<dyn raindb::fs::RandomAccessFile>> {
+        use std::sync::atomic::Ordering::SeqCst;
+        if path.extension().map_or(false, |e| e == "rdb") {
+            let left = self.until_block.load(SeqCst);
+            if left != usize::MAX {
+                if left == 0 {
+                    self.until_block.store(usize::MAX, SeqCst);
+                    self.reached.store(true, SeqCst);
+                    let deadline = std::time::Instant::now() + std::time::Duration::from_secs(30);
+                    while !self.open.load(SeqCst) && std::time::Instant::now() < deadline {
+                        std::thread::sleep(std::time::Duration::from_millis(1));
+                    }
+                } else {
+                    self.until_block.store(left - 1, SeqCst);
+                }
+            }
+        }
+        self.inner.create_file(path, append)
+    }
+    fn remove_file(&self, path: &std::path::Path) -> std::io::Result<()> {
+        self.inner.remove_file(path)
+    }
+    fn remove_dir(&self, path: &std::path::Path) -> std::io::Result<()> {
+        self.inner.remove_dir(path)
+    }
+    fn remove_dir_all(&self, path: &std::path::Path) -> std::io::Result<()> {
+        self.inner.remove_dir_all(path)
+    }
+    fn get_file_size(&self, path: &std::path::Path) -> std::io::Result<u64> {
+        self.inner.get_file_size(path)
+    }
+    fn is_dir(&self, path: &std::path::Path) -> std::io::Result<bool> {
+        self.inner.is_dir(path)
+    }
+    fn lock_file(&self, path: &std::path::Path) -> std::io::Result<raindb::fs::FileLock> {
+        self.inner.lock_file(path)
+    }
+}
+
+/// The owner is closed while its background thread is inside a TABLE compaction and an immutable
+/// memtable is pending: the compaction loop flushes the memtable first and signals the condition
+/// variable although the task is not finished; the close must keep waiting (and keep the lock)
+/// until the task has ended. Until then nobody else may open or destroy the database.
+fn close_during_table_compaction(seed: u64) -> Vec<Fail> {
+    use std::sync::atomic::Ordering::SeqCst;
+    use std::time::{Duration, Instant};
+    let mut rng = Prng::new(seed);
+    let mut fails = vec![];
+    let base = std::env::temp_dir().join(format!("rainverif-c17t-{}-{}", std::process::id(), seed));
+    let _ = std::fs::create_dir_all(&base);
+    let tmp = Arc::new(TmpFileSystem::new(Some(&base)));
+    let fs = Arc::new(GateFs { inner: tmp.clone(), until_block: std::sync::atomic::AtomicUsize::new(usize::MAX), reached: Default::default(), open: Default::default() });
+    let reuse = rng.chance(1, 2);
+    let mk = |fs: &Arc<GateFs>| DbOptions {
+        db_path: tmp.get_root_path().join("db").to_string_lossy().to_string(),
+        filesystem_provider: fs.clone(),
+        create_if_missing: true,
+        max_memtable_size: 2048,
+        reuse_log_files: reuse,
+        ..DbOptions::default()
+    };
+    crate::sched::reset();
+    let gate = crate::sched::arm("bg", "bg:compact-loop", 1);
+    let owner = match DB::open(mk(&fs)) {
+        Ok(d) => d,
+        Err(e) => return vec![("c17:first-open-failed".into(), e.to_string())],
+    };
+    let nkeys = rng.range(8, 24);
+    let vlen = rng.range(60, 140) as usize;
+    let mut expect = std::collections::BTreeMap::new();
+    let mut counter = 0u64;
+    let mut put = |owner: &DB, expect: &mut std::collections::BTreeMap<Vec<u8>, Vec<u8>>, counter: &mut u64| {
+        let k = format!("key{:02}", *counter % nkeys).into_bytes();
+        let mut v = format!("{:08}-", *counter).into_bytes();
+        v.resize(vlen, b'v');
+        if owner.put(WriteOptions::default(), k.clone(), v.clone()).is_ok() {
+            expect.insert(k, v);
+        }
+        *counter += 1;
+    };
+    // overwrite the same keys until level 0 fills up and a table compaction starts; never write
+    // while an immutable memtable exists, so the writer cannot block behind the parked thread
+    let t0 = Instant::now();
+    while !gate.wait_parked(Duration::from_millis(0)) && t0.elapsed() < Duration::from_secs(20) {
+        if owner.verif_state().imm.is_some() {
+            std::thread::sleep(Duration::from_millis(1));
+            continue;
+        }
+        put(&owner, &mut expect, &mut counter);
+    }
+    let mut staged = false;
+    if gate.wait_parked(Duration::from_secs(1)) {
+        // the background thread is parked inside the compaction loop (mutex released): make an
+        // immutable memtable
+        let t1 = Instant::now();
+        while owner.verif_state().imm.is_none() && t1.elapsed() < Duration::from_secs(10) {
+            put(&owner, &mut expect, &mut counter);
+        }
+        staged = owner.verif_state().imm.is_some();
+    }
+    let closer = std::thread::spawn(move || drop(owner));
+    if staged {
+        std::thread::sleep(Duration::from_millis(rng.range(10, 40)));
+        if closer.is_finished() {
+            fails.push(("c17:close-returns-before-background-work-ended".into(), "dropping the DB returned while its compaction thread was parked inside a table compaction".into()));
+        }
+        // let the loop flush the memtable (first table file) and hold it when it opens its own
+        // output file (second table file)
+        fs.until_block.store(1, SeqCst);
+        gate.release();
+        let t2 = Instant::now();
+        while !fs.reached.load(SeqCst) && t2.elapsed() < Duration::from_secs(5) && !closer.is_finished() {
+            std::thread::sleep(Duration::from_millis(1));
+        }
+        if fs.reached.load(SeqCst) && fails.is_empty() {
+            std::thread::sleep(Duration::from_millis(rng.range(10, 60)));
+            if closer.is_finished() {
+                fails.push(("c17:close-returns-before-background-work-ended".into(), "dropping the DB returned while its compaction thread was still in the middle of a table compaction (it had flushed a pending memtable and signalled that)".into()));
+            }
+            match DB::open(mk(&fs)) {
+                Ok(_d) => fails.push(("c17:open-while-closing".into(), "DB::open succeeded while the previous owner was still closing (its compaction thread was in the middle of a table compaction)".into())),
+                Err(_) => {}
+            }
+            if fails.is_empty() {
+                if let Ok(()) = DB::destroy_database(mk(&fs)) {
+                    fails.push(("c17:destroy-while-closing".into(), "destroy_database acted while the previous owner was still closing (its compaction thread was in the middle of a table compaction)".into()));
+                }
+            }
+            STAGED.fetch_add(1, SeqCst);
+        }
+    }
+    fs.open.store(true, SeqCst);
+    gate.release();
+    if closer.join().is_err() {
+        fails.push(("c17:panic".into(), "closing the database panicked".into()));
+    }
+    crate::sched::reset();
+    if fails.is_empty() {
+        // after the close the database opens and holds every acknowledged write
+        match DB::open(mk(&fs)) {
+            Err(e) => fails.push(("c17:open-after-close-fails".into(), format!("DB::open after the owner closed failed: {e}"))),
+            Ok(d) => {
+                for (k, v) in &expect {
+                    match d.get(ReadOptions::default(), k) {
+                        Ok(g) if &g == v => {}
+                        other => {
+                            fails.push(("c17:contents-after-close".into(), format!("after a close during a table compaction, get({}) = {:?}", String::from_utf8_lossy(k), other.map(|x| x.len()))));
+                            break;
+                        }
+                    }
+                }
+                d.verif_wait_idle(Duration::from_secs(20));
+                drop(d);
+            }
+        }
+    }
+    drop(fs);
+    drop(tmp);
+    let _ = std::fs::remove_dir_all(&base);
+    fails
+}
+
+static STAGED: std::sync::atomic::AtomicUsize = std::sync::atomic::AtomicUsize::new(0);
+
 pub fn rule() -> &'static str {
     "disk-backed TmpFileSystem: an owner opens and writes; 2-4 barrier-released threads concurrently try DB::open / destroy_database on the same path (all must fail, the owner keeps reading and writing correctly); in half of the scenarios the owner is closed while its compaction thread is parked in the middle of a flush (scheduling hook) and DB::open / destroy_database are tried until the close has finished (all must fail); after the owner closes, 2-5 barrier-released opens race (exactly one wins and sees every write); destroy_database afterwards. Non-trivial = the scenario ran; distinct by seed."
 }
@@ -237,11 +430,16 @@ pub fn run(tier: &str, seed: u64, replay: Option<&str>, drv_path: &str) -> Repor
         None => (0..n).map(|_| rng.next() % 1_000_000_000).collect(),
     };
     for s in seeds {
-        let line = format!("c17 seed={s}");
+        let table_compaction = replay.map_or(s % 3 == 0, |l| l.contains("close=table-compaction"));
+        let line = if table_compaction { format!("c17 seed={s} close=table-compaction") } else { format!("c17 seed={s}") };
         rep.case(&line, true);
         let dp = drv_path.to_string();
-        rep.model_requests += if drv_path != "none" { 1 } else { 0 };
-        match with_deadline(60, move || scenario(s, dp)) {
+        if table_compaction {
+            rep.count("c17.close-during-table-compaction");
+        } else {
+            rep.model_requests += if drv_path != "none" { 1 } else { 0 };
+        }
+        match with_deadline(60, move || if table_compaction { close_during_table_compaction(s) } else { scenario(s, dp) }) {
             None => rep.fail("hang", "c17:hang", "scenario did not finish within 60 s", &line),
             Some(fails) => {
                 for (sig, what) in fails {
@@ -254,6 +452,9 @@ pub fn run(tier: &str, seed: u64, replay: Option<&str>, drv_path: &str) -> Repor
                 }
             }
         }
+    }
+    for _ in 0..STAGED.load(std::sync::atomic::Ordering::SeqCst) {
+        rep.count("c17.close-during-table-compaction.staged");
     }
     rep
 }
